@@ -5,6 +5,7 @@ import (
 	"go/constant"
 	"go/token"
 	"go/types"
+	"sort"
 	"strings"
 	"sync"
 
@@ -260,7 +261,7 @@ func (ex *Exec) concretize(t *Term, lo, hi int, signed bool) int {
 		return int(v)
 	}
 	if hi-lo > concretizeCap {
-		panic(pathAbort{fmt.Sprintf("BOUND concretize range %d..%d", lo, hi)})
+		return ex.concretizeEnum(t, lo, hi, signed)
 	}
 	alts := make([]alt, 0, hi-lo+2)
 	in := tFalse
@@ -376,6 +377,9 @@ func (ex *Exec) call(fn *ssa.Function, args []Value, env []Value) (ret Value) {
 	}
 	defer func() {
 		r := recover()
+		if _, ok := r.(killSignal); ok {
+			panic(r) // host goroutine of a killed interpreted goroutine: unwind without touching shared state
+		}
 		if _, ok := r.(pathAbort); ok && ex.abortStack == "" {
 			ex.abortStack = ex.stackString()
 		}
@@ -1339,4 +1343,60 @@ func (ex *Exec) stackString() string {
 		parts = append(parts, fnName(ex.stack[i]))
 	}
 	return strings.Join(parts, " < ")
+}
+
+// concretizeEnum handles wide ranges: the feasible values are enumerated with the solver (blocking
+// clauses) instead of testing every value of the range; more than enumCap feasible values is a bound.
+const enumCap = 48
+
+func (ex *Exec) concretizeEnum(t *Term, lo, hi int, signed bool) int {
+	w := t.width
+	inRange := And(Bin(">=", t, Const(w, uint64(lo)), signed), Bin("<=", t, Const(w, uint64(hi)), signed))
+	if ex.pos < len(ex.prefix) {
+		v := ex.prefix[ex.pos]
+		ex.pos++
+		ex.trail = append(ex.trail, v)
+		if v == hi+1 {
+			ex.assume(Not(inRange))
+		} else {
+			ex.assume(Eq(t, Const(w, uint64(v))))
+		}
+		return v
+	}
+	var vals []int
+	ex.sol.Push()
+	ex.sol.Assert(inRange)
+	for {
+		if ex.sol.Check() != "sat" {
+			break
+		}
+		v := int(ex.sol.ValueOf(t))
+		vals = append(vals, v)
+		if len(vals) > enumCap {
+			ex.sol.Pop()
+			panic(pathAbort{fmt.Sprintf("BOUND more than %d feasible values for a size/index in %d..%d", enumCap, lo, hi)})
+		}
+		ex.sol.Assert(Not(Eq(t, Const(w, uint64(v)))))
+	}
+	ex.sol.Pop()
+	sort.Ints(vals)
+	if ex.sol.Feasible(Not(inRange)) {
+		vals = append(vals, hi+1)
+	}
+	if len(vals) == 0 {
+		panic(pathAbort{"infeasible"})
+	}
+	for _, v := range vals[1:] {
+		p := append(append(make([]int, 0, len(ex.trail)+1), ex.trail...), v)
+		ex.newWork = append(ex.newWork, p)
+	}
+	ex.pos++
+	v := vals[0]
+	ex.trail = append(ex.trail, v)
+	if v == hi+1 {
+		ex.assume(Not(inRange))
+	} else {
+		ex.assume(Eq(t, Const(w, uint64(v))))
+	}
+	return v
 }
